@@ -88,8 +88,13 @@ func firstDiff(a, b string) string {
 	return ""
 }
 
+// yamlLines counts line breaks the way the YAML reader (and pint) does: LF, NEL, LS and PS each end a line.
+func yamlLines(s string) int {
+	return strings.Count(s, "\n") + strings.Count(s, "\u0085") + strings.Count(s, "\u2028") + strings.Count(s, "\u2029")
+}
+
 func check(c Case) (nrules int, err error) {
-	if strings.Count(c.A, "\n") != strings.Count(c.B, "\n") {
+	if yamlLines(c.A) != yamlLines(c.B) {
 		return 0, fmt.Errorf("generator bug: line counts differ")
 	}
 	da, na, err := digest(c.A, c.Relaxed)
